@@ -90,6 +90,9 @@ func (s *secureSession) Encrypt(r io.Reader) (io.Reader, error) {
 // Decrypt returns the decrypted data
 func (s *secureSession) Decrypt(r io.Reader) (io.Reader, error) {
 	var buf bytes.Buffer
+	// The frames of a call are counted when the call succeeds: a call which fails
+	// releases no data and must not advance the counter past the unreleased frames.
+	count := s.decryptCount
 	for {
 		var length uint16
 		if err := binary.Read(r, binary.LittleEndian, &length); err != nil {
@@ -110,7 +113,7 @@ func (s *secureSession) Decrypt(r io.Reader) (io.Reader, error) {
 		}
 
 		var nonce [8]byte
-		binary.LittleEndian.PutUint64(nonce[:], s.decryptCount)
+		binary.LittleEndian.PutUint64(nonce[:], count)
 
 		lengthBytes := make([]byte, 2)
 		binary.LittleEndian.PutUint16(lengthBytes, uint16(length))
@@ -122,7 +125,7 @@ func (s *secureSession) Decrypt(r io.Reader) (io.Reader, error) {
 		}
 
 		// Count a frame only after it has been verified
-		s.decryptCount++
+		count++
 
 		buf.Write(decrypted)
 
@@ -131,6 +134,8 @@ func (s *secureSession) Decrypt(r io.Reader) (io.Reader, error) {
 			break
 		}
 	}
+
+	s.decryptCount = count
 
 	return &buf, nil
 }
